@@ -232,7 +232,7 @@ type c08Obs struct {
 
 func TestC08(t *testing.T) {
 	r := evid.Start(t, "C08", "exploration")
-	nBubbles := r.N(160, 3000)
+	nBubbles := r.N(960, 24000)
 	perBubble := r.N(25, 50)
 	nodeNames := []string{"n1", "web-01", "Node.A", "ab"}
 	tagKeyPool := []string{"role", "dc", "ver", "x y", "ROLE", ""}
@@ -443,11 +443,11 @@ func TestC08(t *testing.T) {
 			r.Violation(v.key, ci, v.msg, v.w)
 		}
 	})
-	if r.Counter("selected") < int64(r.N(400, 10000)) || r.Counter("excluded") < int64(r.N(400, 10000)) || r.Counter("acks_expected") < int64(r.N(150, 4000)) {
+	if r.Counter("selected") < int64(r.N(1200, 10000)) || r.Counter("excluded") < int64(r.N(1200, 10000)) || r.Counter("acks_expected") < int64(r.N(450, 4000)) {
 		r.Inconclusive(fmt.Sprintf("too few selected/excluded/acked queries observed: %d/%d/%d", r.Counter("selected"), r.Counter("excluded"), r.Counter("acks_expected")))
 	}
 	r.Finish("generated queries (0-4 filters: node lists with own name / prefixes / case variants / empty, tag filters from a regex grammar incl. anchors, alternation, classes, invalid patterns, raw undecodable bodies, unknown filter types; ack / no-broadcast / unknown flag bits; six internal names, unknown internal names and near-miss prefixes) sent twice (puppet UDP or NotifyMsg) to a real node with generated name and tags; compared with the harness's own filter evaluation: EventCh deliveries, acks at the origin puppet, gossip queue contents, late duplicates. Non-trivial = has filters, an internal name or flags; distinct by (node, tags, name, filters, flags)",
-		r.N(1500, 30000),
+		r.N(4000, 30000),
 		"filter bodies are decoded in the harness with the same msgpack library (go-msgpack) but its own structs; zero-length filters are excluded (C09)",
 		"re-broadcast is observed as presence of the identical bytes in the node's query broadcast queue (passive memberlist)")
 }
